@@ -179,6 +179,16 @@ let rec uexpr_sx (e : ParseExpr.uexpr) : string =
   | ParseExpr.UFnCall (f, args) -> Printf.sprintf "(call %s%s)" (str_of_codes f) (list args)
   | ParseExpr.UIf (c, t, x) -> Printf.sprintf "(if %s %s %s)" (uexpr_sx c) (uexpr_sx t) (uexpr_sx x)
   | ParseExpr.UCast (ty, x) -> Printf.sprintf "(cast %s %s)" (utype_sx ty) (uexpr_sx x)
+  | ParseExpr.UArrayLiteral es -> Printf.sprintf "(arrlit%s)" (list es)
+  | ParseExpr.UArrayRepeat (x, n) -> Printf.sprintf "(arrrep %s %s)" (uexpr_sx x) (string_of_n n)
+  | ParseExpr.UArrayRepeatConst (x, c) -> Printf.sprintf "(arrrepc %s %s)" (uexpr_sx x) (str_of_codes c)
+  | ParseExpr.URange (a, b, t) -> Printf.sprintf "(range %s %s %s)" (string_of_n a) (string_of_n b) (uty_sx t)
+  | ParseExpr.UStructLiteral (n, fs) ->
+    Printf.sprintf "(structlit %s%s)" (str_of_codes n)
+      (String.concat "" (Stdlib.List.map (fun (f, x) -> Printf.sprintf " (%s %s)" (str_of_codes f) (uexpr_sx x)) fs))
+  | ParseExpr.UEnumLiteral (e, v, args) ->
+    Printf.sprintf "(enumlit %s %s %s)" (str_of_codes e) (str_of_codes v)
+      (match args with None -> "(unit)" | Some es -> Printf.sprintf "(args%s)" (list es))
   | ParseExpr.UBlock ss -> Printf.sprintf "(block%s)" (String.concat "" (Stdlib.List.map (fun x -> " " ^ ustmt_sx x) ss))
   | ParseExpr.UMatch (x, arms) ->
     Printf.sprintf "(match %s%s)" (uexpr_sx x)
